@@ -25,8 +25,9 @@ import (
 // the real registry (GetSideChain) must equal the model registry for every chain id.
 
 type c35Case struct {
-	N   int   `json:"n"`
-	Ops []gop `json:"ops"`
+	N       int   `json:"n"`
+	Persist bool  `json:"persist,omitempty"` // every block boundary flushes the block overlay into the store
+	Ops     []gop `json:"ops"`
 }
 
 var c35Requests = []string{kScReg, kScReg, kScUpd, kScUpd, kScQuit}
@@ -164,7 +165,7 @@ func genC35(t *rapid.T) c35Case {
 	for _, p := range parts {
 		ops = append(ops, p...)
 	}
-	return c35Case{N: n, Ops: ops}
+	return c35Case{N: n, Persist: rapid.Bool().Draw(t, "persist"), Ops: sprinkleNext(t, ops)}
 }
 
 type c35Chain struct {
@@ -179,7 +180,10 @@ func runC35(ctx *ev.Ctx, c c35Case) {
 	if c.N < 4 {
 		c.N = 4
 	}
-	e := newEng(ctx, c.N, 0, 0)
+	e := newEng(ctx, c.N, engOpts{persist: c.Persist})
+	if c.Persist {
+		e.label("blocks-persisted")
+	}
 	chains := map[uint64]*c35Chain{}
 	for id := uint64(1); id <= numChains; id++ {
 		chains[id] = &c35Chain{appr: map[string]map[common.Address]bool{}}
@@ -369,6 +373,6 @@ func TestC35(t *testing.T) {
 	ev.Drive(t, "C35",
 		"cases: N=4..7 (thorough 13) validators, chain ids 1..3, three owner accounts; 3..45 (thorough 100) ops: register/update/quit requests by owners and non-owners (7% with a foreign witness), "+
 			"3 cases in 4 first put non-consensus members into the pool (1..4 approved candidates without epoch change, a quit, a blacklisted candidate); approval rounds (threshold, threshold-1, all, 1, 2) by consensus validators and by the non-consensus pool members, single approvals by validators, pool members and outsiders, occasional quit / epoch change in between, requests overwritten while partially approved. "+
-			"non-trivial: an update and a removal took effect and a non-owner's update/quit request was attempted on a registered chain; distinct by JSON of the case",
+			"non-trivial: an update and a removal took effect and a non-owner's update/quit request was attempted on a registered chain; in half of the cases every block boundary persists the block overlay into the store, and about one op in three is followed by a block boundary; distinct by JSON of the case",
 		genC35, runC35)
 }
